@@ -196,8 +196,9 @@ def run(chk, repo, tier):
         if isinstance(c, ast.ClassDef):
             for s_ in c.body:
                 if isinstance(s_, ast.FunctionDef) and s_.name in (
-                        '__call__', 'getbondtype', 'RunReactants',
-                        'GetNumReactantTemplates'):
+                        '__init__', '__call__', 'getbondtype',
+                        'RunReactants', 'GetNumReactantTemplates',
+                        'AppendReactantQuery'):
                     reviewed.check(
                         chk, 'R17.5', repo, RQ, '%s.%s' % (c.name, s_.name),
                         '%s.%s (rule application) is unchanged from its '
@@ -225,4 +226,20 @@ def run(chk, repo, tier):
                                    '%s.%s (reactant matching) is unchanged '
                                    'from its reviewed reference'
                                    % (c.name, s_.name))
+    class_state(chk, repo, 'R17.4')
+
+
+def class_state(chk, repo, rule):
+    """No class of the rule machinery carries class-level containers (two
+    rule objects must not share templates, matches or edits)."""
+    for rel in ('pgradd/RDkitWrapper/ReactionQuery.py',
+                'pgradd/RINGParser/ReactionQueryRead.py'):
+        for c in repo.mod(rel).tree.body:
+            if isinstance(c, ast.ClassDef):
+                state = [src(s_)[:50] for s_ in c.body
+                         if isinstance(s_, ast.Assign)]
+                chk.ob(rule, not state, rel, c,
+                       key='no-class-state:' + c.name, qualname=c.name,
+                       what='%s has no class-level state (shared by every '
+                            'rule object)' % c.name, found='; '.join(state))
 
